@@ -76,6 +76,19 @@ func RunOnceLogged(t *testing.T, sc *Scenario, tape *Tape, keepTrace bool, crash
 				}
 				return
 			}
+			if sc.Reload != nil {
+				rr := &reloadRun{sc: sc, rs: sc.Reload, tape: tape, stats: Stats{Faults: map[string]int{}, Probes: map[string]int{}, AbstractSeen: map[string]bool{}}}
+				if err := rr.execute(); err != nil {
+					res.Err = err.Error()
+				}
+				res.Violations, res.Stats = rr.viol, rr.stats
+				h := sha256.Sum256([]byte(strings.Join(rr.trace, "\n")))
+				res.Hash = hex.EncodeToString(h[:8])
+				if keepTrace {
+					res.Trace = rr.trace
+				}
+				return
+			}
 			run := NewRun(sc, tape)
 			run.CrashLog = crashLog
 			if err := run.Execute(); err != nil {
@@ -246,6 +259,28 @@ func MinimiseWith(fails func(*Scenario, []uint32) bool, sc *Scenario, tape []uin
 							best, improved = cand, true
 						}
 					}
+				}
+			}
+		}
+		if best.Reload != nil {
+			for best.Reload.Edits > 1 {
+				cand := cloneScenario(best)
+				cand.Reload.Edits--
+				if !try(cand, bestTape) {
+					break
+				}
+				best, improved = cand, true
+			}
+			for _, f := range []func(*ReloadScenario) bool{
+				func(r *ReloadScenario) bool { ch := r.PInval != 0; r.PInval = 0; return ch },
+				func(r *ReloadScenario) bool { ch := r.PTorn != 0; r.PTorn = 0; return ch },
+				func(r *ReloadScenario) bool { ch := r.Files > 1; r.Files = 1; return ch },
+				func(r *ReloadScenario) bool { ch := r.Pipes > 1; r.Pipes = 1; return ch },
+				func(r *ReloadScenario) bool { ch := r.Direct != 0; r.Direct = 0; return ch },
+			} {
+				cand := cloneScenario(best)
+				if f(cand.Reload) && try(cand, bestTape) {
+					best, improved = cand, true
 				}
 			}
 		}
